@@ -45,7 +45,15 @@ type histStep struct {
 	Calls  []builderCall // for derive: builder calls applied to Target, result stored in a new slot
 }
 
+// sibling scenario: several extractors derived from one shared base; each must
+// behave like a freshly built chain (deriving never changes the base nor a sibling).
+type siblingCase struct {
+	Base   []builderCall
+	Derive [][]builderCall
+}
+
 type request struct {
+	Siblings  []siblingCase
 	Path      string
 	NPages    int
 	PageToks  [][]string // tokens per page in content order
@@ -281,6 +289,27 @@ func work(rq request) response {
 		if l := fdsOf(dir); len(l) != 0 {
 			add("fd-leak", "%s: %d descriptor(s) open after four terminal operations: %v", name, len(l), l)
 		}
+	}
+
+	// ---- siblings derived from one shared base (copy-on-configure)
+	for ci, sc := range rq.Siblings {
+		base := apply(tabula.Open(rq.Path), sc.Base)
+		var sibs []*tabula.Extractor
+		for _, d := range sc.Derive {
+			sibs = append(sibs, apply(base, d)) // all derived before any is used
+		}
+		check := func(who string, e *tabula.Extractor, calls []builderCall) {
+			got, _, err := e.Text()
+			want, _, werr := apply(tabula.Open(rq.Path), calls).Text()
+			rp.Counters["sibling_ops_compared"]++
+			if (err == nil) != (werr == nil) || fw.OneLine(fmt.Sprint(fw.FindTokens(got)), 1<<20) != fw.OneLine(fmt.Sprint(fw.FindTokens(want)), 1<<20) {
+				add("sibling-interference", "sibling case %d: %s built by %v returns tokens %v (err %v), a freshly built equal extractor returns %v (err %v)", ci, who, calls, head(fw.FindTokens(got)), err, head(fw.FindTokens(want)), werr)
+			}
+		}
+		for i := len(sibs) - 1; i >= 0; i-- { // use them in reverse creation order
+			check(fmt.Sprintf("sibling %d", i), sibs[i], append(append([]builderCall{}, sc.Base...), sc.Derive[i]...))
+		}
+		check("base", base, sc.Base)
 	}
 
 	// ---- history: immutability of bases + descriptor discipline
@@ -577,6 +606,21 @@ func Run(c *fw.Ctx) {
 		_, toks := g.ExpectedPageText()
 		np := len(toks)
 		rq := request{Path: path, NPages: np, PageToks: toks, Spellings: genSpellings(r, np), History: genHistory(r, np)}
+		for k := 0; k < 3; k++ {
+			var sc siblingCase
+			for j := r.Intn(6); j > 0; j-- { // a chain of single-page calls leaves spare slice capacity
+				sc.Base = append(sc.Base, builderCall{Kind: "Pages", Args: []int{1 + r.Intn(np)}})
+			}
+			for j := 2 + r.Intn(3); j > 0; j-- {
+				if r.Intn(4) == 0 {
+					a := 1 + r.Intn(np)
+					sc.Derive = append(sc.Derive, []builderCall{{Kind: "PageRange", Args: []int{a, a}}})
+				} else {
+					sc.Derive = append(sc.Derive, []builderCall{{Kind: "Pages", Args: []int{1 + r.Intn(np)}}})
+				}
+			}
+			rq.Siblings = append(rq.Siblings, sc)
+		}
 		if i%10 == 0 {
 			rq.BadFiles = bad
 		}
